@@ -180,9 +180,9 @@ func checkC06(r *Run) {
 	vr := "iface:visor.Blockchainer.VerifySingleTxnSoftHardConstraints($2, $1, $3, $4, $5, 1)#2"
 	softOnly := req("verification returned nil or a soft-constraint error", "when: "+vr+" != nil => "+vr+".(transaction.ErrTxnViolatesSoftConstraint)#1")
 	r.RequireAtCall("C06-R3", "visor.UnconfirmedTransactionPool.InjectTransaction", "visor.unconfirmedTxns.put", 1,
-		softOnly, req("hash not yet in the pool", "!visor.unconfirmedTxns.hasKey($0.txns, $1, coin.Transaction.Hash($3))#0"))
+		softOnly, req("hash not yet in the pool", "!visor.unconfirmedTxns.hasKey($0.txns, $1, coin.Transaction.Hash*($3))#0"))
 	r.RequireAtCall("C06-R3", "visor.UnconfirmedTransactionPool.InjectTransaction", "visor.unconfirmedTxns.update", 1,
-		softOnly, req("hash already in the pool", "visor.unconfirmedTxns.hasKey($0.txns, $1, coin.Transaction.Hash($3))#0"))
+		softOnly, req("hash already in the pool", "visor.unconfirmedTxns.hasKey($0.txns, $1, coin.Transaction.Hash*($3))#0"))
 	r.RequireAtCall("C06-R3", "visor.UnconfirmedTransactionPool.InjectTransaction", "visor.txnUnspents.put", 1, softOnly)
 	// R4
 	r.RequireOnSuccess("C06-R4", "visor.Visor.executeSignedBlockUnsafe",
